@@ -91,6 +91,14 @@ Theorem C19_counter_and_unit_reach_the_transformation :
   Gen.ClangDelta.manager_counter_writes = [] /\ Gen.ClangDelta.unit_handler_stops = [].
 Proof. vm_compute. split; reflexivity. Qed.
 
+(* ... and the pair (counter, to-counter) passes the manager's own sanity check for every range a binary-search driver can ask
+   for (a single instance k..k included) and for a plain counter; a counter below 1 is refused *)
+Theorem C19_ranges_pass_the_managers_check :
+  (forall c t : Z, (1 <= c)%Z -> (c <= t)%Z -> verify_ok c t = true) /\
+  (forall c : Z, (1 <= c)%Z -> verify_ok c (-1) = true) /\
+  (forall c t : Z, (c <= 0)%Z -> verify_ok c t = false).
+Proof. exact (conj verify_accepts_ranges (conj verify_accepts_plain_counter verify_refuses_nonpositive)). Qed.
+
 (* each transformation name is registered once *)
 Theorem C19_registrations_nodup :
   nodup_str (map (fun r => fst (fst r)) Gen.ClangDelta.registrations) = true.
